@@ -235,3 +235,27 @@ CHECKS["C16"] = {
     "runs": [{"variant": "pure-rel"}, {"variant": "pure-dbg"}],
     "assumptions": ["the harness #includes src/static.c to reach static functions and tables (observation only)", "Linux x86-64; 64-bit size classes only"],
 }
+
+OPTS = {"harness": "opts", "harness_src": "opts.c", "mi_as_harness_include": True}
+VARIANTS["opts-asan"] = dict(OPTS, cc="clang", mi_flags=["-O1", "-g", "-DNDEBUG", "-DMI_STAT=2", "-fsanitize=address,bounds", "-fno-sanitize-recover=bounds", "-fno-omit-frame-pointer", "-w"], harness_flags=[], link_flags=["-fsanitize=address,bounds"])
+VARIANTS["opts-rel"] = dict(OPTS, mi_flags=["-O2", "-DNDEBUG", "-DMI_BUILD_RELEASE", "-w"], harness_flags=[])
+CHECKS["C20"] = {
+    "custom_run": True, "level": "exploration",
+    "rule": "cases = (a) option index (all 37) x name spelling (upper/lower/mixed, legacy name) x value: exhaustive small forms (every boolean spelling, digits 0..999 x unit spellings K/M/G/T "
+            "with iB/B and lower case) and generated values: well-formed per the grammar bool | [+-]?digits | digits(K|M|G|T)(iB|B)? with up to 25 digits (overflow of long/size_t), malformed by "
+            "mutation (inserted/replaced bytes incl. '=', non-ASCII, 0x.., words, 65-8000 character values), environments of up to 10 010 entries; the option is reset to {default, UNINIT}, "
+            "environ is pointed at the generated vector and mi_option_get is called; reference parser: booleans -> 0/1, integers -> strtol semantics with saturation, size options in KiB (unit "
+            "applied, bytes rounded up to KiB, saturated at MI_MAX_ALLOC_SIZE/KiB / LONG_MAX); malformed -> value == compiled default and the option is not marked as set; (b) mi_option_set/get/"
+            "get_clamp/get_size/is_enabled/set_default/enable/disable for all options x boundary long values; (c) _mi_snprintf with formats generated from the supported grammar (%[+ ][-][0]"
+            "[width][z|t|l|ll|L](d|i|u|x|p|s)), unsupported and truncated specs, strings of 0-4 KiB, exactly sized heap buffers of 0-600 bytes incl. sizes within +-2 of the formatted length; "
+            "_mi_strlcpy/_mi_strlcat for all (fill, size, length) up to 80; the message functions with arguments longer than their 512-byte buffer; (d) mi_stats_get_json for every buffer size "
+            "1..full+2 (exact heap buffers) and (0,NULL), mi_stats_print_out / mi_thread_stats_print_out / mi_options_print / mi_arenas_print with statistics values up to +-2^62, and the 16 KiB "
+            "delayed output buffer flooded before an output function is registered. Oracle besides the reference values: AddressSanitizer / -fsanitize=bounds clean (variant opts-asan), every "
+            "buffer terminated inside its size, return value < size and == strlen. Non-trivial = value longer than 16 characters or with a unit suffix, a malformed value, a buffer size within +-2 "
+            "of the formatted length or a format with width, a boundary option value. Generated inputs are deduplicated by hash.",
+    "runs": [{"variant": "opts-asan", "env": {"ASAN_OPTIONS": "detect_leaks=0:abort_on_error=0:exitcode=99"}}, {"variant": "opts-rel"}],
+    "assumptions": ["values that are substrings of '1;TRUE;YES;ON' / '0;FALSE;NO;OFF' other than the documented spellings, values with leading white space and the form '<digits>B' are accepted by the implementation (strstr / strtol) and are neither generated as well-formed nor asserted as malformed (counted as ambiguous_values_not_asserted)",
+                    "values longer than the 64-byte copy and environments beyond the documented 10 000-entry scan are only checked for memory safety",
+                    "formatted content (digits, padding) is not asserted; the property is about totality and memory safety",
+                    "the harness #includes src/static.c to reset the static option table between in-process cases"],
+}
